@@ -267,7 +267,9 @@ class reactive_ops:
         >>> result.rx.value
         True
         """
-        return self._as_rx()._apply_operator(lambda obj, other: obj and other, other)
+        # `x and y` is `y if x else x`: like Python, do not evaluate the
+        # operand when the current value already decides
+        return self.where(other, self._reactive)
 
     def bool(self) -> 'rx':
         """
@@ -647,7 +649,8 @@ class reactive_ops:
         >>> rx_or.rx.value
         True
         """
-        return self._as_rx()._apply_operator(lambda obj, other: obj or other, other)
+        # `x or y` is `x if x else y` (see and_)
+        return self.where(self._reactive, other)
 
     def pipe(self, func, /, *args, **kwargs)-> 'rx':
         """
